@@ -28,6 +28,7 @@ type Job struct {
 	NShards       int            `json:"nshards,omitempty"`
 	NoCache       bool           `json:"nocache,omitempty"`
 	Delay         bool           `json:"delay,omitempty"`          // bound counts delays instead of preemptions
+	Flat          bool           `json:"flat,omitempty"`           // bound counts deviations: any non-default choice costs one
 	FallbackDelay int            `json:"fallback_delay,omitempty"` // if the unbounded search hits its budget: complete a delay-bounded search with this bound instead (0 = none)
 	Choices       []int          `json:"choices,omitempty"`        // replay only
 }
@@ -62,6 +63,8 @@ func (j Job) String() string {
 	}
 	if j.Bound < 0 {
 		sb.WriteString(" bound=unbounded")
+	} else if j.Flat {
+		fmt.Fprintf(&sb, " deviations<=%d", j.Bound)
 	} else if j.Delay {
 		fmt.Fprintf(&sb, " delays<=%d", j.Bound)
 	} else {
@@ -76,7 +79,7 @@ func runJob(j Job) JobResult {
 		fmt.Fprintf(os.Stderr, "INFRA: unknown harness %q\n", j.Harness)
 		os.Exit(2)
 	}
-	cfg := vsched.Config{Bound: j.Bound, Params: j.Params, MaxExecs: j.MaxExecs, Shard: j.Shard, NShards: j.NShards, NoCache: j.NoCache, Delay: j.Delay}
+	cfg := vsched.Config{Bound: j.Bound, Params: j.Params, MaxExecs: j.MaxExecs, Shard: j.Shard, NShards: j.NShards, NoCache: j.NoCache, Delay: j.Delay, Flat: j.Flat}
 	if j.BudgetS > 0 {
 		cfg.Deadline = time.Now().Add(time.Duration(j.BudgetS * float64(time.Second)))
 	}
@@ -221,7 +224,7 @@ func runJobs(c *vk.Ctx, jobs []Job) []JobResult {
 			if r.Job.Bound < minBound {
 				minBound = r.Job.Bound
 			}
-			if r.Job.Delay {
+			if r.Job.Delay || r.Job.Flat {
 				anyDelay = true
 			} else {
 				anyPre = true
@@ -247,7 +250,7 @@ func runJobs(c *vk.Ctx, jobs []Job) []JobResult {
 	} else {
 		kind := "preemptions"
 		if anyDelay && !anyPre {
-			kind = "delays"
+			kind = "delays/deviations"
 		} else if anyDelay {
 			kind = "preemptions/delays"
 		}
